@@ -19,6 +19,8 @@ mod c06;
 mod c07;
 mod c08;
 mod c09;
+mod c11;
+mod sendsys;
 mod chan;
 
 #[global_allocator]
@@ -73,6 +75,7 @@ fn main() {
             "C07" => c07::replay(&v["replay"]),
             "C08" => c08::replay(&v["replay"]),
             "C09" => c09::replay(&v["replay"]),
+            "C11" => c11::replay(&v["replay"]),
             _ => {
                 eprintln!("no replay for {}", id);
                 std::process::exit(2);
@@ -98,6 +101,7 @@ fn main() {
             "C07" => c07::run(thorough),
             "C08" => c08::run(thorough),
             "C09" => c09::run(thorough),
+            "C11" => c11::run(thorough),
             other => {
                 eprintln!("unknown check {}", other);
                 2
